@@ -1487,6 +1487,12 @@ def _add_facts(facts, new):
     for f in new:
         if f[0] == "variant":
             sel = f[2]
+            vo = variant_of(f[1]) if isinstance(f[1], tuple) and f[1] else None
+            if vo is not None and vo[0].endswith(("Option", "Result")):
+                # a fact about a value the path itself constructed (`Some{x} is None` after a capture was substituted)
+                if vo[1] not in sel:
+                    return False
+                continue
             for g in facts:
                 if g[0] == "variant" and g[1] == f[1]:
                     sel = tuple(n for n in sel if n in g[2])
